@@ -1,5 +1,5 @@
 (* Model of the asynchronous logger: Logger::send / enqueue / stop (include/fix8/logger.hpp:
-   296-312), the consumer loop Logger::operator()() and the "sequence" field of
+   296-312), the consumer loop Logger::operator()() and the "sequence" and "direction" fields of
    process_logline (runtime/logger.cpp:60-140), FIX8_MPMC_SYSTEM == FIX8_MPMC_FF branch,
    as an interleaving model in the convention of DESIGN.md section 4 "Concurrency group":
    [step c t] executes the next atomic action of thread t (one load, one store, one queue
@@ -23,7 +23,8 @@ From Coq Require Import ZArith List Bool Arith.
 From F8 Require Import C28.Spec_C28.
 Import ListNotations.
 
-Record qelem := { q_src : option (nat * nat); q_text : text }.
+(* LogElement: _str, _val (the "val" argument of send/enqueue) *)
+Record qelem := { q_src : option (nat * nat); q_text : text; q_val : Z }.
 
 Inductive tid := P (i : nat) | Cons | Stop.
 
@@ -38,11 +39,14 @@ Inductive spc := SIdle | SReq | SPushed | SDone.
 
 Record config := {
   mask : Z;                      (* _levels *)
+  dirflag : bool;                (* _flags & direction *)
+  valf : valfn;                  (* what the producers pass as val: call k of producer i passes valf i k *)
   prods : list pstate;
   queue : list qelem;            (* _msg_queue *)
   stopping : bool;               (* _stopping *)
   cons : cpc;
   seqno : nat;                   (* _sequence *)
+  oseqno : nat;                  (* _osequence *)
   file : list (nat * text);      (* the log file: sequence field and text of each line *)
   stopper : spc;
   pushed : list qelem;           (* ghost *)
@@ -51,9 +55,9 @@ Record config := {
   at_stop : list qelem;          (* ghost *)
   after_stop : list qelem }.     (* ghost *)
 
-Definition init (m : Z) (ps : list prog) : config :=
-  {| mask := m; prods := map (fun p => {| todo := p; pidx := O; rets := [] |}) ps;
-     queue := []; stopping := false; cons := CSample; seqno := O; file := []; stopper := SIdle;
+Definition init (m : Z) (d : bool) (vf : valfn) (ps : list prog) : config :=
+  {| mask := m; dirflag := d; valf := vf; prods := map (fun p => {| todo := p; pidx := O; rets := [] |}) ps;
+     queue := []; stopping := false; cons := CSample; seqno := O; oseqno := O; file := []; stopper := SIdle;
      pushed := []; wrote := []; dropped := []; at_stop := []; after_stop := [] |}.
 
 (* _msg_queue.try_push(le): always succeeds *)
@@ -82,22 +86,22 @@ Definition step_prod (c : config) (i : nat) : config :=
       | [] => c
       | (lev, txt) :: rest =>
           if enabled (mask c) lev then
-            let x := {| q_src := Some (i, pidx ps); q_text := txt |} in
+            let x := {| q_src := Some (i, pidx ps); q_text := txt; q_val := valf c i (pidx ps) |} in
             let (q', r) := enqueue (queue c) x in
-            {| mask := mask c; prods := upd (prods c) i {| todo := rest; pidx := S (pidx ps); rets := rets ps ++ [r] |};
-               queue := q'; stopping := stopping c; cons := cons c; seqno := seqno c; file := file c;
+            {| mask := mask c; dirflag := dirflag c; valf := valf c; prods := upd (prods c) i {| todo := rest; pidx := S (pidx ps); rets := rets ps ++ [r] |};
+               queue := q'; stopping := stopping c; cons := cons c; seqno := seqno c; oseqno := oseqno c; file := file c;
                stopper := stopper c; pushed := pushed c ++ [x]; wrote := wrote c; dropped := dropped c;
                at_stop := at_stop c; after_stop := g_after c x |}
           else
-            {| mask := mask c; prods := upd (prods c) i {| todo := rest; pidx := S (pidx ps); rets := rets ps ++ [true] |};
-               queue := queue c; stopping := stopping c; cons := cons c; seqno := seqno c; file := file c;
+            {| mask := mask c; dirflag := dirflag c; valf := valf c; prods := upd (prods c) i {| todo := rest; pidx := S (pidx ps); rets := rets ps ++ [true] |};
+               queue := queue c; stopping := stopping c; cons := cons c; seqno := seqno c; oseqno := oseqno c; file := file c;
                stopper := stopper c; pushed := pushed c; wrote := wrote c; dropped := dropped c;
                at_stop := at_stop c; after_stop := after_stop c |}
       end
   end.
 
 Definition set_cons (c : config) (k : cpc) : config :=
-  {| mask := mask c; prods := prods c; queue := queue c; stopping := stopping c; cons := k; seqno := seqno c;
+  {| mask := mask c; dirflag := dirflag c; valf := valf c; prods := prods c; queue := queue c; stopping := stopping c; cons := k; seqno := seqno c; oseqno := oseqno c;
      file := file c; stopper := stopper c; pushed := pushed c; wrote := wrote c; dropped := dropped c;
      at_stop := at_stop c; after_stop := after_stop c |}.
 
@@ -110,7 +114,7 @@ Definition set_cons (c : config) (k : cpc) : config :=
            hypersleep<h_microseconds>(200); continue;
         }
         if (msg_ptr->_str.empty()) break;                  (still CPop: thread-local)
-        process_logline(msg_ptr);   // "sequence": ++_sequence, then the text, then endl       CWrite
+        process_logline(msg_ptr);   // sequence field, [direction field,] text, endl                CWrite
      }                                                                                          *)
 Definition step_cons (c : config) : config :=
   match cons c with
@@ -120,17 +124,25 @@ Definition step_cons (c : config) : config :=
       | [] => if s then set_cons c CExit else set_cons c CSample
       | x :: q' =>
           match q_text x with
-          | [] => {| mask := mask c; prods := prods c; queue := q'; stopping := stopping c; cons := CExit;
-                     seqno := seqno c; file := file c; stopper := stopper c; pushed := pushed c; wrote := wrote c;
+          | [] => {| mask := mask c; dirflag := dirflag c; valf := valf c; prods := prods c; queue := q'; stopping := stopping c; cons := CExit;
+                     seqno := seqno c; oseqno := oseqno c; file := file c; stopper := stopper c; pushed := pushed c; wrote := wrote c;
                      dropped := dropped c ++ [x]; at_stop := at_stop c; after_stop := after_stop c |}
-          | _ :: _ => {| mask := mask c; prods := prods c; queue := q'; stopping := stopping c; cons := CWrite x;
-                         seqno := seqno c; file := file c; stopper := stopper c; pushed := pushed c; wrote := wrote c;
+          | _ :: _ => {| mask := mask c; dirflag := dirflag c; valf := valf c; prods := prods c; queue := q'; stopping := stopping c; cons := CWrite x;
+                         seqno := seqno c; oseqno := oseqno c; file := file c; stopper := stopper c; pushed := pushed c; wrote := wrote c;
                          dropped := dropped c; at_stop := at_stop c; after_stop := after_stop c |}
           end
       end
   | CWrite x =>
-      {| mask := mask c; prods := prods c; queue := queue c; stopping := stopping c; cons := CSample;
-         seqno := S (seqno c); file := file c ++ [(S (seqno c), q_text x)]; stopper := stopper c;
+      (* case sequence: if (_flags & direction) fostr << (msg_ptr->_val ? ++_sequence : ++_osequence);
+                        else fostr << ++_sequence;
+         case direction (only with the flag): fostr << (msg_ptr->_val ? " in" : "out");   then the text *)
+      let useseq := if dirflag c then negb (Z.eqb (q_val x) 0) else true in
+      let n := if useseq then S (seqno c) else S (oseqno c) in
+      {| mask := mask c; dirflag := dirflag c; valf := valf c; prods := prods c; queue := queue c;
+         stopping := stopping c; cons := CSample;
+         seqno := if useseq then S (seqno c) else seqno c;
+         oseqno := if useseq then oseqno c else S (oseqno c);
+         file := file c ++ [(n, rest (dirflag c) (q_val x) (q_text x))]; stopper := stopper c;
          pushed := pushed c; wrote := wrote c ++ [x]; dropped := dropped c;
          at_stop := at_stop c; after_stop := after_stop c |}
   | CExit => c
@@ -139,17 +151,17 @@ Definition step_cons (c : config) : config :=
 (* void stop() { _stopping.request_stop(); enqueue(std::string()); _thread.join(); } *)
 Definition step_stop (c : config) : config :=
   match stopper c with
-  | SIdle => {| mask := mask c; prods := prods c; queue := queue c; stopping := true; cons := cons c;
-                seqno := seqno c; file := file c; stopper := SReq; pushed := pushed c; wrote := wrote c;
+  | SIdle => {| mask := mask c; dirflag := dirflag c; valf := valf c; prods := prods c; queue := queue c; stopping := true; cons := cons c;
+                seqno := seqno c; oseqno := oseqno c; file := file c; stopper := SReq; pushed := pushed c; wrote := wrote c;
                 dropped := dropped c; at_stop := pushed c; after_stop := [] |}
-  | SReq => let x := {| q_src := None; q_text := [] |} in
+  | SReq => let x := {| q_src := None; q_text := []; q_val := 0%Z |} in     (* enqueue(std::string()): val defaults to 0 *)
             let (q', _) := enqueue (queue c) x in
-            {| mask := mask c; prods := prods c; queue := q'; stopping := stopping c; cons := cons c;
-               seqno := seqno c; file := file c; stopper := SPushed; pushed := pushed c ++ [x]; wrote := wrote c;
+            {| mask := mask c; dirflag := dirflag c; valf := valf c; prods := prods c; queue := q'; stopping := stopping c; cons := cons c;
+               seqno := seqno c; oseqno := oseqno c; file := file c; stopper := SPushed; pushed := pushed c ++ [x]; wrote := wrote c;
                dropped := dropped c; at_stop := at_stop c; after_stop := after_stop c ++ [x] |}
   | SPushed => match cons c with
-               | CExit => {| mask := mask c; prods := prods c; queue := queue c; stopping := stopping c; cons := cons c;
-                             seqno := seqno c; file := file c; stopper := SDone; pushed := pushed c; wrote := wrote c;
+               | CExit => {| mask := mask c; dirflag := dirflag c; valf := valf c; prods := prods c; queue := queue c; stopping := stopping c; cons := cons c;
+                             seqno := seqno c; oseqno := oseqno c; file := file c; stopper := SDone; pushed := pushed c; wrote := wrote c;
                              dropped := dropped c; at_stop := at_stop c; after_stop := after_stop c |}
                | _ => c                                   (* join blocks *)
                end
@@ -229,5 +241,5 @@ Definition sched_for (m : Z) (order : list nat) (ps : list prog) : list tid :=
   let producers := s1 ++ s2 ++ sched_rest O ps2 in
   producers ++ repeat Cons (3 * S (total_calls ps)) ++ [Stop; Cons; Cons; Cons; Stop; Cons; Cons; Cons; Cons; Stop].
 
-Definition run_case (m : Z) (order : list nat) (ps : list prog) : obs :=
-  observe (run (sched_for m order ps) (init m ps)).
+Definition run_case (m : Z) (d : bool) (vf : valfn) (order : list nat) (ps : list prog) : obs :=
+  observe (run (sched_for m order ps) (init m d vf ps)).
